@@ -2,37 +2,60 @@
 (* C14, real histories: the absolute reference of a function resolves to that very       *)
 (* function at every point of the history, activation by reference is accepted, and the   *)
 (* streams obtained by reference equal the streams obtained by name; probing leaves no      *)
-(* stray binding in the function's module.                                                *)
-EXTENDS Integers, Sequences, FiniteSets, TLC, Json, IOUtils, TLCExt, SequencesExt
+(* stray binding in the function's module.  Probes on OTHER functions of the module (the    *)
+(* enclosing function, functions sharing the bare name) run in between, and at every        *)
+(* `resolve` step every function of the module must answer to its own reference.            *)
+(* The registry mechanism of RegistryOps.tla is run along the history: a wrong answer that   *)
+(* the mechanism predicts is tagged mech:<kind> (known deviations), any other wrong answer    *)
+(* is tagged other; a right answer where the mechanism predicts a wrong one is model drift.   *)
+EXTENDS RegistryOps, Json, IOUtils, TLCExt, SequencesExt
 Traces == JsonDeserialize(IOEnv.TRACE_FILE)
-VARIABLES tid, l, active, expect, fails
-vars == <<tid, l, active, expect, fails>>
+VARIABLES tid, l, active, expect, fails, mech, owner
+vars == <<tid, l, active, expect, fails, mech, owner>>
 T == Traces[tid]
 S == T.steps[l]
-Init == /\ tid \in 1..Len(Traces) /\ l = 1 /\ active = {} /\ expect = <<>> /\ fails = <<>>
+Init == /\ tid \in 1..Len(Traces) /\ l = 1 /\ active = {} /\ expect = <<>> /\ fails = <<>> /\ mech = State0 /\ owner = <<>>
         /\ TLCSet(tid, <<0, <<>>>>)
 F(clause, why) == [line |-> l, clause |-> clause, why |-> why, nactive |-> Cardinality(active)]
 \* expect: function probe id -> sequence of values owed
 Recv(ex) == IF \A p \in DOMAIN ex : p \in DOMAIN S.recv /\ S.recv[p] = ex[p] THEN <<>> ELSE <<F("Stream", "")>>
+WhyRef(k, got) == IF got = ResolveKey(mech, k) THEN "mech:" \o ViolKind(mech, k) ELSE "other"
+ResolveAll == LET ks == {k \in DOMAIN S.all : S.all[k] # k}
+                  ds == {k \in DOMAIN S.all : S.all[k] = k /\ ResolveKey(mech, k) # k}
+              IN SetToSeq({F("Resolve", WhyRef(k, S.all[k])) : k \in ks}) \o SetToSeq({F("Drift", k) : k \in ds})
 Step ==
   /\ l <= Len(T.steps) /\ l' = l + 1 /\ UNCHANGED tid
   /\ LET op == S.op IN
      CASE op[1] = "act" ->
-            LET ex2 == (op[2] :> <<>>) @@ expect IN
-            /\ active' = active \cup {op[2]} /\ expect' = ex2
-            /\ fails' = fails \o (IF S.outcome = "ok" THEN <<>> ELSE <<F(IF op[3] = "ref" THEN "ActivateByReference" ELSE "ActivateByName", S.outcome)>>)
+            LET ex2 == IF S.outcome = "ok" THEN (op[2] :> <<>>) @@ expect ELSE expect IN
+            /\ active' = (IF S.outcome = "ok" THEN active \cup {op[2]} ELSE active) /\ expect' = ex2
+            /\ mech' = IF S.outcome = "ok" THEN ActOp(mech, T.key, "tree") ELSE mech
+            /\ owner' = IF S.outcome = "ok" THEN (op[2] :> T.key) @@ owner ELSE owner
+            /\ fails' = fails \o (IF S.outcome = "ok" THEN <<>>
+                                  ELSE <<F(IF op[3] = "ref" THEN "ActivateByReference" ELSE "ActivateByName",
+                                           IF op[3] = "ref" /\ ResolveKey(mech, T.key) # T.key THEN "mech:" \o ViolKind(mech, T.key) ELSE S.outcome)>>)
                               \o (IF S.outcome = "ok" THEN Recv(ex2) ELSE <<>>)
-       [] op[1] = "deact" ->
+       [] op[1] = "nact" ->
+            /\ UNCHANGED <<active, expect>>
+            /\ mech' = IF S.outcome = "ok" THEN ActOp(mech, op[3], "tree") ELSE mech
+            /\ owner' = IF S.outcome = "ok" THEN (op[2] :> op[3]) @@ owner ELSE owner
+            /\ fails' = fails \o (IF S.outcome = "ok" THEN <<>> ELSE <<F("ActivateNeighbour", S.outcome)>>) \o Recv(expect)
+       [] op[1] \in {"deact", "ndeact"} ->
             /\ active' = active \ {op[2]} /\ expect' = expect
-            /\ fails' = fails \o (IF S.outcome = "ok" THEN <<>> ELSE <<F("Deactivate", S.outcome)>>) \o Recv(expect)
+            /\ mech' = IF op[2] \in DOMAIN owner THEN DeactOp(mech, owner[op[2]]) ELSE mech
+            /\ owner' = [p \in DOMAIN owner \ {op[2]} |-> owner[p]]
+            \* deactivating a probe whose activation was refused is not part of the history (the driver has no such probe)
+            /\ fails' = fails \o (IF S.outcome = "ok" \/ op[2] \notin DOMAIN owner THEN <<>> ELSE <<F("Deactivate", S.outcome)>>) \o Recv(expect)
        [] op[1] = "call" ->
             LET ex2 == [p \in DOMAIN expect |-> IF p \in active THEN Append(expect[p], op[2] + T.off) ELSE expect[p]] IN
-            /\ expect' = ex2 /\ UNCHANGED active
+            /\ expect' = ex2 /\ UNCHANGED <<active, mech, owner>>
             /\ fails' = fails \o (IF S.outcome = "ok" /\ S.same THEN <<>> ELSE <<F("Call", S.outcome)>>) \o Recv(ex2)
        [] op[1] = "resolve" ->
-            /\ UNCHANGED <<active, expect>>
+            /\ UNCHANGED <<active, expect, mech, owner>>
             /\ fails' = fails \o (IF S.outcome = "ok" /\ S.same THEN <<>>
-                                  ELSE <<F("Resolve", IF S.outcome = "ok" THEN "other-object" ELSE S.outcome)>>)
+                                  ELSE <<F("Resolve", IF ResolveKey(mech, T.key) # T.key THEN "mech:" \o ViolKind(mech, T.key)
+                                                      ELSE IF S.outcome = "ok" THEN "other-object" ELSE S.outcome)>>)
+                              \o (IF S.outcome = "ok" THEN ResolveAll ELSE <<>>)
 Spec == Init /\ [][Step]_vars
 Progress == TLCSet(tid, <<l - 1, fails>>)
 Post == \A i \in 1..Len(Traces) :
